@@ -68,6 +68,8 @@ func r(p, c string) rule { return rule{regexp.MustCompile(p), c} }
 // order matters: first match wins
 var rules = []rule{
 	r(`^syntax error`, "syntax"),
+	r(`option \S+ cannot be defined more than once`, "option-repeated"),
+	r(`expecting bool value for message_set_wire_format`, "msgset-not-bool"),
 	r(`syntax value must be`, "syntax-value"),
 	r(`^edition `, "edition-value"),
 	r(`file not found`, "import-missing"),
@@ -145,7 +147,7 @@ var rules = []rule{
 	r(`cannot use closed enum`, "closed-enum-implicit"),
 	r(`default value cannot be a message`, "default-message"),
 	r(`enum \S+ has no value named|is not a member of enum|expecting enum|expecting identifier|expecting (string|int|uint|bool|float|double|bytes)|out of range for|is out of range|value is not a valid`, "default-bad-value"),
-	r(`non-custom option 'default' or 'json_name'|option .* already set|multiple .* options|already set`, "option-repeated"),
+	r(`cannot be defined more than once`, "option-repeated"),
 	r(`expecting bool value for message_set_wire_format`, "msgset-not-bool"),
 }
 
@@ -191,10 +193,6 @@ func compileWith(files map[string]string, roots []string, collect bool) ([]*desc
 	var fds []*descriptorpb.FileDescriptorProto
 	if err == nil {
 		seen := map[string]bool{}
-		var add func(f interface {
-			Path() string
-		})
-		_ = add
 		for _, f := range res {
 			if !seen[f.Path()] {
 				seen[f.Path()] = true
@@ -402,11 +400,17 @@ func valJSON(v ast.ValueNode) map[string]any {
 	return map[string]any{"t": "other"}
 }
 
+// optName returns the option name as written (extension parts in parentheses) and whether it is
+// a single plain identifier.
 func optName(o *ast.OptionNode) (string, bool) {
-	if len(o.Name.Parts) == 1 && !o.Name.Parts[0].IsExtension() {
-		return string(o.Name.Parts[0].Name.AsIdentifier()), true
+	parts := make([]string, len(o.Name.Parts))
+	for i, p := range o.Name.Parts {
+		parts[i] = string(p.Name.AsIdentifier())
+		if p.IsExtension() {
+			parts[i] = "(" + parts[i] + ")"
+		}
 	}
-	return "", false
+	return strings.Join(parts, "."), len(o.Name.Parts) == 1 && !o.Name.Parts[0].IsExtension()
 }
 
 // options of a field: only json_name and default are in the fragment
@@ -509,6 +513,9 @@ func (c *conv) extend(e *ast.ExtendNode) map[string]any {
 }
 
 func (c *conv) enum(e *ast.EnumNode) map[string]any {
+	if e.Visibility != nil {
+		c.bad("visibility")
+	}
 	els := []any{}
 	for _, d := range e.Decls {
 		switch d := d.(type) {
@@ -560,6 +567,9 @@ func (c *conv) body(decls []ast.MessageElement) []any {
 			}
 			out = append(out, map[string]any{"k": "oneof", "name": d.Name.Val, "elems": els})
 		case *ast.MessageNode:
+			if d.Visibility != nil {
+				c.bad("visibility")
+			}
 			out = append(out, map[string]any{"k": "message", "name": d.Name.Val, "body": c.body(d.Decls)})
 		case *ast.EnumNode:
 			out = append(out, c.enum(d))
